@@ -41,10 +41,25 @@ def check_ratios(run, A):
             ok = parts == {id(plain[0]), id(plain[1])} and plain[0] is not plain[1]
         run.check(ok, 'IDENT', f'{name}: distortion = interference + noise (1/SDR = 1/SIR + 1/SNR)', fn.loc(calls[0].node), '',
                   'the denominator of the SDR is not the sum of exactly the SIR and SNR denominators', construct=f'IDENT::{q}::power-decomposition')
-        # result order: (SDR, SIR, SNR) = (sum, interference, noise)
+        # which ratio is reported as SDR: the one with the summed denominator (first field of the result tuple / key 'sdr')
         if ok:
-            order = [d is sums[0] for d in dens]
-            run.check(order == [True, False, False], 'IDENT', f'{name}: first ratio is the SDR', fn.loc(), '', 'the ratio with the summed denominator is not bound first (SDR)', construct=f'IDENT::{q}::order')
+            sdr_call = calls[dens.index(sums[0])]
+            reported = []
+            for r in ret_alts(g):
+                r = strip_views(r)
+                n_, pos, kw = call_parts(r)
+                if r.op == 'dict':
+                    for k, v in zip(r.args[0], r.args[1]):
+                        kv = const_val(k)
+                        if kv == 'sdr' or (strip_views(k).op == 'binop' and const_val(strip_views(k).args[2]) == 'sdr'):
+                            reported.append(v)
+                elif r.op == 'call' and pos:
+                    reported.append(pos[0])
+            okr = bool(reported) and all(any(x is sdr_call for x in walk_terms(v)) for v in reported)
+            others = [c for c in calls if c is not sdr_call]
+            okr = okr and all(not any(x is c for c in others for x in walk_terms(v)) for v in reported)
+            run.check(okr, 'IDENT', f'{name}: the ratio over interference + noise is what is reported as SDR', fn.loc(), '', 'the value reported as SDR is not the ratio with the summed denominator',
+                      construct=f'IDENT::{q}::order')
     # _sxr is a pure ratio 10 log10(S / X)
     q = S + '_sxr'
     fn = A.prog.func(q)
